@@ -34,14 +34,24 @@ def shards(tier, seed):
         out += [dict(kind='exh', n=7, part=i, parts=64) for i in range(64)]
         out += [dict(kind='exh', n=8, part=i, parts=96, max_rings=3) for i in range(96)]
     out += [dict(kind='mol', shard=i, n=250 if tier == 'quick' else 4000) for i in range(6 if tier == 'quick' else 12)]
+    out.append(dict(kind='witness', n=24 if tier == 'quick' else 200))
     return out
+
+
+# molecules with two ring systems one of which is a dense cage (witnesses of known finding C06-dense-cage-mix) and controls
+WITNESSES = ['C123C45C1C4(C2(C3)C5)C.C12C34C5(C1(C5)C3)C24', 'C123C45C1C4(C2(C3)C5)C12C34C5(C1(C5)C3)C24',
+             'C123C45C1C4(C2(C3)C5)C12C3C4C1C5C2C3C45', 'C123C45C1C4(C2(C3)C5)C', 'C12C3C4C1C5C2C3C45C12C3C4C1C5C2C3C45',
+             'C123C45C1C4(C2(C3)C5)C12CCC(CC1)C2']
 
 
 def run_shard(shard, tier, seed):
     if shard['kind'] == 'exh':
         return direct_run(ID, graphs(shard), check_case)
+    if shard['kind'] == 'witness':
+        return direct_run(ID, ({'mol': {'k': 'smi', 's': w}, 'seed': seed * 100003 + i} for w in WITNESSES for i in range(shard['n'])),
+                          check_case)
     strat = st.fixed_dictionaries({'mol': st.one_of(molgen.mol_specs(max_atoms=16, corpus_w=4, curated_w=4, graph_w=5, sym_w=2),
-                                                    ring_assemblies()),
+                                                    ring_assemblies(), ring_pairs()),
                                    'seed': st.integers(0, 2 ** 31)})
     return hyp_run(ID, strat, check_case, max_examples=shard['n'], seed=seed * 1000 + shard['shard'])
 
@@ -173,6 +183,46 @@ def _three_long_disjoint_paths(b, s, e, limit=20000):
     return False
 
 
+def dense_cage_mix(adj):
+    """>= 2 ring blocks, one of them a dense cage (cyclomatic number >= atoms - 2 and >= 4): routes to the known finding on the
+    global ring-count cut-off of the ring filter"""
+    blocks, _ = mcb.blocks_and_bridges(adj)
+    if len(blocks) < 2:
+        return False
+    for block in blocks:
+        n = len(mcb._block_adj(block))
+        k = len(block) - n + 1
+        if k >= 4 and k >= n - 2:
+            return True
+    return False
+
+
+@st.composite
+def ring_pairs(draw):
+    """two independent assemblies in one molecule, as separate components or joined by a bond or a two-atom linker
+    (the ring filter works on the whole molecule with one global ring count)"""
+    a, b = draw(ring_assemblies()), draw(ring_assemblies())
+    off = len(a['atoms'])
+    atoms = a['atoms'] + b['atoms']
+    bonds = a['bonds'] + [[i + off, j + off, o] for i, j, o in b['bonds']]
+    how = draw(st.sampled_from(['dot', 'bond', 'linker']))
+    if how != 'dot':
+        deg = {}
+        for i, j, _ in bonds:
+            deg[i] = deg.get(i, 0) + 1
+            deg[j] = deg.get(j, 0) + 1
+        ca = [i for i in range(off) if deg.get(i, 0) < 4]
+        cb = [i for i in range(off, len(atoms)) if deg.get(i, 0) < 4]
+        if ca and cb:
+            x, y = ca[draw(st.integers(0, len(ca) - 1))], cb[draw(st.integers(0, len(cb) - 1))]
+            if how == 'linker':
+                atoms = atoms + [['C', 0, None, False]]
+                bonds = bonds + [[x, len(atoms) - 1, 1], [len(atoms) - 1, y, 1]]
+            else:
+                bonds = bonds + [[x, y, 1]]
+    return {'k': 'graph', 'atoms': atoms, 'bonds': bonds, 'stereo': []}
+
+
 def check_rings(adj, rings, rec, label, in_gap):
     k = mcb.cyclomatic(adj)
     if len(rings) != k:
@@ -191,7 +241,8 @@ def check_rings(adj, rings, rec, label, in_gap):
                 rec.fail('simple-cycle', f'{label}: ring {r} uses a non-existent bond {a}-{b}')
                 return None
         if not g.add(mcb._edge_vec(tuple(r), eidx)):
-            rec.fail('independent', f'{label}: ring {r} is a GF(2) combination of the other reported rings')
+            rec.fail('independent', f'{label}: ring {r} is a GF(2) combination of the other reported rings',
+                     sig='dense-cage-with-second-ring-system' if dense_cage_mix(adj) else '')
             return None
     try:
         ref = mcb.analyse(adj)
